@@ -231,11 +231,15 @@ def check_special_files():
         ('bom_semicolon_no_header', ';', False, '\ufeff2024-01-01;ALPHA;5.00\n2024-01-02;BETA;6.00\n', [('ALPHA', 5.0), ('BETA', 6.0)]),
         ('bom_regex_no_header', 'regex:^(\\S+) (\\w+) (-?[\\d.]+)$', False, '\ufeff2024-01-01 ALPHA 5.00\n2024-01-02 BETA 6.00\n', [('ALPHA', 5.0), ('BETA', 6.0)]),
     ]
+    # a byte that is not UTF-8 in one row (a Latin-1 export): the other rows are read as if that row were not there or were read with a replacement
+    # character - (expected list None: only 'BETA' is checked)
+    cases.append(('invalid_utf8_byte_in_one_row', None, False, b'2024-01-01,CAF\xe9 ONE,5.00\n2024-01-02,BETA,6.00\n', None))
+    cases.append(('invalid_utf8_byte_in_one_row_semicolon', ';', True, b'Date;Description;Amount\n2024-01-01;BETA;6.00\n2024-01-02;M\xfcNCHEN;7.00\n', None))
     for name, delim, header, text, want in cases:
         O.case(('special', name))
-        w = {'fn': 'parse_generic_csv', 'special': name, 'delimiter': delim, 'has_header': header, 'file_text': text}
-        with open(path, 'w', encoding='utf-8') as f:
-            f.write(text)
+        w = {'fn': 'parse_generic_csv', 'special': name, 'delimiter': delim, 'has_header': header, 'file_text': text if isinstance(text, str) else repr(text)}
+        with open(path, 'wb') as f:
+            f.write(text.encode('utf-8') if isinstance(text, str) else text)
         src = {'name': 'Bank', 'file': path, 'format': '{date:%Y-%m-%d}, {description}, {_}, {amount}' if 'four_columns' in name else fmt, 'has_header': header}
         if delim:
             src['delimiter'] = delim
@@ -245,7 +249,10 @@ def check_special_files():
         except Exception as e:
             O.fail('C05.parse_generic_csv.raises', w, want, '%s: %s' % (type(e).__name__, e), 'parse_generic_csv on the file text given')
             continue
-        if got != want:
+        if want is None:
+            if ('BETA', 6.0) not in got or len(got) > 2:
+                O.fail('C05.parse_generic_csv.rows', w, "the row 'BETA' 6.00 is read whatever happens to the row with the invalid byte", got, 'parse_generic_csv on the file bytes given')
+        elif got != want:
             O.fail('C05.parse_generic_csv.rows', w, want, got, 'parse_generic_csv on the file text given')
 
 
